@@ -7,4 +7,5 @@ var (
 	ErrInvalidVersion     = errors.New("invalid version string")
 	ErrInvalidMessageType = errors.New("invalid message type")
 	ErrInvalidPayloadType = errors.New("invalid payload type")
+	ErrInvalidFrameLength = errors.New("invalid message length")
 )
